@@ -5,11 +5,41 @@ ENTRY = dict(
         title="Joint weights are exact above threshold, normalised, and unbiased in the tail",
         prop_file="Properties/C04.v",
         corr_files=["Corr/C04Corr.v"],
-        theorems=["c04_refuses", "c04_facts"],
+        theorems=["c04_exact_complete", "c04_no_zero", "c04_count_sum", "c04_unbiased_partial", "c04_infinite",
+                  "c04_refuses", "c04_machine_refines_spec_fin", "c04_facts"],
         allowed_axioms=[],
         facts=["nonzero_atol"],
         harness="c04",
-        level_text="(filled in below as theorems land)",
-        level_note=STD_NOTE + "No axioms.",
-        assumptions=[],
+        level_text="Unbounded theorems (any number of bases and maps, every family of sorting permutations = every tie order, every "
+                   "admissible answer tape of numpy.random.choice) about the executable model of qpd/weights.py over exact rationals: "
+                   "every joint map with p >= 1/N is EXACT with weight N*p (N <= 1e14); no returned key has probability zero; infinite "
+                   "budget = exactly the maps with p >= 1e-14, weight p; N < 1 / NaN / -inf refused; the weights sum to at most N with a "
+                   "deficit bounded by N*1e-14*(#prefixes+1), and to N exactly with at most ceil(N) entries when no input or table "
+                   "entry lies in the cut-off band (0,1e-14]; for every joint map the expected weight (expectation functional using only "
+                   "E[count_i]=n*p_i) equals N*p under the same hypothesis, EXCEPT in the branch where the single-leftover shortcut "
+                   "fires (partial; full statement kept open in Properties/C04.v). The line-by-line step machine of the DFS generator is "
+                   "proved equal to the recursive specification only on a FINITE domain (40494 inputs x 6 thresholds, bound in the "
+                   "statement); the unbounded refinement is open. Closed under the global context. The model contains the repaired "
+                   "behaviour of finding F9. Model (specification AND step machine, permutation wrapper, weights, draw-tape sampler, "
+                   "expectation functional, final sort) is run against the implementation on >1000 generated cases per run, the "
+                   "sequence of generator yields included; for samples_needed<=3 every answer sequence of the oracle is enumerated.",
+        level_note=STD_NOTE + "No axioms. Modelling assumptions: O-choice (numpy.random.choice(range(n),k,p) returns k indices, each of "
+                   "positive probability; E[count_i]=k*p_i; different calls independent) -- the support part is monitored on every case, "
+                   "the law enters only through the expectation functional; np.argsort(cp)[::-1] returns SOME descending permutation "
+                   "(recorded per case and checked); np.sum/np.prod/np.min/np.max/np.isclose/np.flatnonzero/math.ceil/Counter/"
+                   "itertools.product/sorted are modelled by their exact-arithmetic meaning.",
+        assumptions=[
+            "Model/Weights.v is a hand-written model of weights.py over Q (binary64 rounding out of scope; the correspondence drives the "
+            "implementation with dyadic inputs under a 53-bit mantissa budget on which binary64 is exact, argued in harness/c04.py and "
+            "re-checked by exact comparison of Fraction(float) with the model's Q)",
+            "the cut-off 1e-14 is read from weights.py on every run (Extracted/Facts.v nonzero_atol)",
+            "hypothesis no_entry_in_cutoff (c04_count_sum exactness clause, c04_unbiased_partial): every input entry is 0 or > 1e-14 "
+            "(observation O2: an entry bit-equal to the cut-off is ignored by the all-exact test but still emitted, so the entry count can "
+            "exceed ceil(N)), and no raw conditional-table entry of the DFS lies in (0,1e-14]; otherwise the mass lost is bounded as stated",
+            "hypothesis N <= 1e14 (atol*N <= 1) in c04_exact_complete/c04_count_sum/c04_unbiased_partial: beyond it the all-exact branch "
+            "drops maps with 1/N <= p < 1e-14 (non-vacuity example c04_ex_bound_needed); the property's range is N <= 1e6 or infinity",
+            "the model has the REPAIRED F9 behaviour (`if samples_needed < 1: return retval`); on the unrepaired /repo the implementation "
+            "raises AssertionError on such inputs and the run reports a VIOLATION",
+            "c04_unbiased_partial excludes the single-leftover shortcut branch; c04_machine_refines_spec_fin is a finite-domain theorem",
+        ],
     )
